@@ -33,7 +33,7 @@ def run(tier: str, seed: int, rep: Report, model: Model) -> dict:
     rep.rule += '; plus tuples of another length than their hint (must not be accepted)'
     cases = corpus()
     for _ in range(n):
-        base = GC.gen_case(rnd, tuples=0.75, plain=0.05, optionals=0.1, with_ret=0.6)
+        base = GC.gen_case(rnd, tuples=0.75, plain=0.05, optionals=0.1, with_ret=0.6, opt_tuples=0.15)
         if rnd.random() < 0.4:
             cases.append(base)
         else:
